@@ -98,6 +98,18 @@ func caseC13(c *Ctx) {
 					}
 				}
 			}
+			if c.Case%8 == 2 {
+				// many filters registered at a time (mostly relation filters), before most of the tables are retired
+				p.MaxRegs = 17 + c.R.Intn(10)
+				p.RelRegs = true
+				g.P = p
+				for i := 0; i < p.MaxRegs && !a.Failed(); i++ {
+					if op := g.gen("CacheRegister"); op != nil {
+						a.Do(op)
+					}
+				}
+				a.Cov.N["histories_with_17plus_registrations"]++
+			}
 			// retire 55-90 % of the tables: children first, then the target
 			Shuffle(c.R, parents)
 			for _, pe := range parents[:len(parents)*(55+c.R.Intn(35))/100] {
